@@ -89,3 +89,64 @@ Fixpoint heads (t : node) : list node :=
                | _ => []
                end.
 Definition event_heads (evs : list event) : list node := map (fun e : event => head_of (snd e)) evs.
+
+(* ---------- a source that can fail ----------
+   fs.Next() returns a file, an error other than io.EOF (LocalFS: the walk could not lstat / list an
+   entry; TarReader: a damaged stream), or io.EOF -- the end of the list.  tar() returns at the
+   first error (`if err != nil { if err == io.EOF { break }; return n, err }`), so does the check
+   after the root entry.  FaultAsEOF is a source that turns its error into a normal end (the walk
+   function storing the error and stopping the walk, the stored error then overwritten by io.EOF):
+   kept to state what reporting the error is for. *)
+Inductive next_result := NextOk (e : event) | NextErr.
+Inductive fault_variant := FaultReported | FaultAsEOF.
+Inductive rres (A : Type) := ROk (a : A) | RErr | RFuel.
+Arguments ROk {A} a.
+Arguments RErr {A}.
+Arguments RFuel {A}.
+
+Fixpoint regroupF (v : fault_variant) (fuel : nat) (src : list next_result) : rres (node * list next_result) :=
+  match fuel with
+  | O => RFuel
+  | S f =>
+    match src with
+    | [] => RErr                                  (* Tar(): the very first Next() says io.EOF *)
+    | NextErr :: _ => RErr                        (* either way there is no first file *)
+    | NextOk (p, _, h) :: rest =>
+        match h with
+        | NDir m xs _ =>
+            match groupF v f p rest [] with
+            | ROk (cs, rest') => ROk (NDir m xs cs, rest')
+            | RErr => RErr
+            | RFuel => RFuel
+            end
+        | _ => ROk (h, rest)
+        end
+    end
+  end
+with groupF (v : fault_variant) (fuel : nat) (dirp : bytes) (src : list next_result) (acc : list (bytes * node))
+     : rres (list (bytes * node) * list next_result) :=
+  match fuel with
+  | O => RFuel
+  | S f =>
+    match src with
+    | [] => ROk (acc, [])                                                       (* io.EOF: break *)
+    | NextErr :: _ => match v with FaultReported => RErr | FaultAsEOF => ROk (acc, []) end
+    | NextOk (p, name, _) :: _ =>
+        if beq (dir p) dirp then
+          match regroupF v f src with
+          | ROk (c, rest') => groupF v f dirp rest' (acc ++ [(base name, c)])
+          | RErr => RErr
+          | RFuel => RFuel
+          end
+        else ROk (acc, src)
+    end
+  end.
+
+(* Tar() over such a source, with the check after the root entry *)
+Definition tar_faulty (v : fault_variant) (src : list next_result) : tar_outcome :=
+  match regroupF v (2 * length src + 2) src with
+  | ROk (t, []) => TarOk t
+  | ROk (t, NextErr :: _) => match v with FaultReported => TarError | FaultAsEOF => TarOk t end
+  | ROk (_, NextOk _ :: _) => TarError
+  | _ => TarError
+  end.
